@@ -180,6 +180,9 @@ def _hook(event, args):
 def _install_hook():
     # sys.addaudithook is permanent: install once per process, gate with _A["on"]
     if not _A["installed"]:
+        # a lazy import inside mako must not try to write a .pyc next to its source while the gate is closed
+        # (the sandbox sets PYTHONDONTWRITEBYTECODE=1 anyway; this makes the check independent of it)
+        sys.dont_write_bytecode = True
         sys.addaudithook(_hook)
         _A["installed"] = True
 
@@ -895,7 +898,7 @@ def run(ctx):
     if ev.labels.get("caller-unavailable") and not ctx.failures:
         raise core.HarnessError("calling templates could not be loaded %d times (%s) and no violation was found"
                                 % (ev.labels["caller-unavailable"], ev.notes.get("caller_unavailable_example")))
-    ev.exhaustive = True
+    ev.exhaustive = parts is None or "direct" in parts
     ev.notes["exhaustive_domains"] = (
         "all URIs of <=3 segments (11 segments x 3 separators x 6 leads x 2 trails = %d strings incl. duplicates) for "
         "%d configurations via get_template+has_template%s; the same URIs from calling templates at every depth 0..3"
